@@ -177,8 +177,9 @@ LP_NACK, LP_NACK_REASON = 0x0320, 0x0321
 
 
 def lp_wire(fragment=None, headers=()) -> bytes:
-    """headers: iterable of (type, value-bytes) placed before the fragment."""
-    body = b''.join(tlv(t, v) for t, v in headers)
+    """headers: iterable of (type, value-bytes); encoded before the fragment in increasing Type order (NDNLPv2 header
+    fields are ordered by Type number; an out-of-order field is not a recognised field)."""
+    body = b''.join(tlv(t, v) for t, v in sorted(headers, key=lambda tv: tv[0]))
     if fragment is not None:
         body += tlv(LP_FRAGMENT, fragment)
     return tlv(LP, body)
